@@ -4,5 +4,5 @@
 R="${1:-/repo}"
 cd "$R" || exit 2
 out=$(mktemp -p /dev/shm junit.XXXXXX.xml)
-env -u YAMLPATH_VERIF /venv/bin/python -m pytest -ra -q -p no:cacheprovider --timeout=900 --continue-on-collection-errors --junitxml="$out" 2>&1 | tail -3
+env -u YAMLPATH_VERIF PYTHONPATH="$R" /venv/bin/python -m pytest -ra -q -p no:cacheprovider --timeout=900 --continue-on-collection-errors --junitxml="$out" 2>&1 | tail -3
 rm -f "$out"
